@@ -416,6 +416,25 @@ def taskPackets : Option Task → Nat
   | some ⟨.contSource _ _ ids, _⟩ => ids.length
   | _ => 0
 
+/-! ### The task space across iterations (`ThreadSafeVector< Task >`)
+
+A slot of the task space is locked from `get_free_element` until it is released.  Normally a thread
+releases the slot right after it executed the task (`_tasks->free_element(current_index)`, the
+protocol's commit removes the task); with the command line switch `--task-plot` nothing is released
+during the iteration (the tasks are written to a file afterwards) and every executed task stays
+locked.  The reset at the end of the iteration is `_tasks->clear()`. -/
+
+/-- slots that are locked when the photon loop of an iteration has ended: the tasks that still exist
+in the protocol state plus, in task-plot mode, the slots of the tasks executed in this iteration -/
+def lockedAtLoopEnd (plot : Bool) (executed : Nat → Bool) (s : State) : Nat → Bool :=
+  fun t => (s.tasks t).isSome || (plot && executed t)
+
+/-- `ThreadSafeVector::clear`: unlocks every slot -/
+def spaceClear (_locked : Nat → Bool) : Nat → Bool := fun _ => false
+
+/-- `ThreadSafeVector::clear_fast`: only resets the running index (asserts that nothing is locked) -/
+def spaceClearFast (locked : Nat → Bool) : Nat → Bool := locked
+
 /-! ### DistributedPhotonSource: split of the requested number over sources and subgrid copies -/
 
 /-- per-copy totals of one source: `number_this_source` packets over `ncopy` copies
